@@ -32,12 +32,20 @@ Stems == { << "eq", "x", "y+1" >>, << "eq", "y", "0.5*x+g" >>, << "eq", "g", "[2
            << "lag1", "t_minus_1", "t" >>, << "eq", "s", "t+1" >>, << "ic", "t", "2000." >>,
            << "multieq", "x", "y" >> }
 
+TagStems == { << "eq", "x", "y+1" >>, << "lag3", "z", "x" >>, << "ic", "x", "3" >>,
+              << "maxtime", "MaxTime", "3" >>, << "errtol", "Err_Tolerance", "1e-4" >>,
+              << "usert", "t", "2*k" >>, << "multieq", "x", "y" >> }
+
 MC_FormsAll ==
     { F(st[1], st[2], st[3], c, s) : st \in Stems, c \in BaseClasses, s \in Spacings }
     \cup { F("noeq", "", "x+y", c, s) : c \in BaseClasses, s \in Spacings }
     \cup { F("comment", "", "", c, "one") : c \in BaseClasses \ {"none", "exo"} }
     \cup { F("blank", "", "", "none", s) : s \in Spacings }
     \cup { Marker }
+    \* the library's own tags / markers / parameter names in the comment of every kind of line
+    \cup { F(st[1], st[2], st[3], c, "one") : st \in TagStems, c \in TagClasses }
+    \cup { F("noeq", "", "x+y", c, "one") : c \in TagClasses }
+    \cup { F("comment", "", "", c, "one") : c \in {"pmax", "ptol"} }
 
 MC_FirstAfter == { Marker, Blank }
 
